@@ -19,6 +19,7 @@ var legInfra = []string{"sys-child-process", "asm-child-process", "sys-driver", 
 var legScopes = map[string][]string{
 	"C01": {"stored-once-per-acknowledged-recipient", "acknowledged-mail-is-stored", "sys-smtp-replies", "sys-final-store", "sys-store-add", "asm-final-mailboxes",
 		"mail-is-fetchable-by-address", "size-is-length"},
+	"C04": {"mail-is-fetchable-by-address", "mailbox-name-is-a-fixed-point", "acknowledged-mail-is-stored"},
 	"C05": {"accept-rule", "origin-rule", "store-rule", "sys-smtp-replies", "stored-once-per-acknowledged-recipient", "acknowledged-mail-is-stored"},
 	"C14": {"sys-rest-", "rest-", "go-client-", "missing-is-404", "listed-is-fetchable", "removed-is-gone", "failed-request-changes-nothing", "request-changes-only-what-it-says",
 		"held-message-is-found", "api-is-served-under-the-base-path", "webui-", "nothing-is-served-outside-the-base-path", "root-redirects-to-the-base-path",
@@ -61,6 +62,7 @@ func attach(id string, leg func(c *core.Ctx)) {
 
 func init() {
 	attach("C01", func(c *core.Ctx) { sysLegN(c, 600, 8000) })
+	attach("C04", func(c *core.Ctx) { sysLegN(c, 400, 6000) })
 	attach("C14", func(c *core.Ctx) { sysLegN(c, 600, 8000); asmLegN(c, 16, 200) })
 	attach("C05", func(c *core.Ctx) { asmLegN(c, 16, 200) })
 	attach("C15", func(c *core.Ctx) { asmLegN(c, 24, 300) })
